@@ -556,6 +556,27 @@ theorem Reachable.ancClosure {o : Onto} (h : Reachable o) (rank : Nat → Nat)
     obtain ⟨c, hc⟩ := transGen_last ha
     exact h.closedP c a hc
 
+/-! derived: every id stored anywhere in a `Reachable` ontology resolves -/
+
+theorem Reachable.closedC {o : Onto} (h : Reachable o) (j c : Nat) (hc : c ∈ childrenOf o.terms j) :
+    (getT o.terms c).isSome := by
+  have := (h.inverse j c).1 hc
+  cases hg : getT o.terms c with
+  | none => simp [parentsOf, hg] at this
+  | some _ => rfl
+
+theorem Reachable.closedA {o : Onto} (h : Reachable o) (j a : Nat) (ha : a ∈ allOf o.terms j) :
+    (getT o.terms a).isSome := by
+  obtain ⟨c, hc⟩ := transGen_last ((h.closure j a).1 ha)
+  exact h.closedP c a hc
+
+theorem Reachable.annResolves {o : Onto} (h : Reachable o) (k : Kind) (x r : Nat)
+    (hr : r ∈ annOf k o.terms x) : (getR (o.recs k) r).isSome := by
+  obtain ⟨d, hd, _⟩ := (h.linked k x r).1 hr
+  cases hg : getR (o.recs k) r with
+  | none => simp [hposOf, hg] at hd
+  | some _ => rfl
+
 /-- `connect_all_terms` on the reloaded terms: succeeds and caches exactly the ancestor groups of `o`;
 the result satisfies the annotation invariant (no records yet). -/
 theorem connect_phase (o : Onto) (h : Reachable o) (o2 : Onto) (hpre : PreInv o2.terms)
@@ -1105,6 +1126,419 @@ theorem loadFacts_refine (o : Onto) (h : Reachable o) (f : RawFacts)
       rw [h.categories]; simp only [defCategories, hch]
     · show defModifier ts7 = o.modifier
       rw [h.modifier]; simp only [defModifier, hch]
+
+
+/-! ### exact form: the records in the order `as_bytes` wrote them -/
+
+theorem FactsPerm.refl (f : RawFacts) : FactsPerm f f :=
+  ⟨rfl, List.Perm.refl _, List.Perm.refl _, List.Perm.refl _, List.Perm.refl _, List.Perm.refl _⟩
+
+theorem onto_ext (a b : Onto) (h1 : a.terms = b.terms) (h2 : a.slot0 = b.slot0)
+    (h3 : ∀ k, a.recs k = b.recs k) (h4 : a.version = b.version)
+    (h5 : a.categories = b.categories) (h6 : a.modifier = b.modifier) : a = b := by
+  have g := h3 .gene; have om := h3 .omim; have orp := h3 .orpha
+  cases a; cases b
+  simp only [Onto.recs] at g om orp
+  simp_all
+
+/-- With the records in the order they were written, the reloaded ontology is `truncOnto o`
+literally: same slots in the same order, same record lists, every field equal (names cut). -/
+theorem loadFacts_factsOf (o : Onto) (h : Reachable o) :
+    Onto.loadFacts 3 (factsOf o) = .ok (truncOnto o) := by
+  obtain ⟨o', hl, L⟩ := loadFacts_refine o h (factsOf o) (FactsPerm.refl _)
+  rw [hl]
+  congr 1
+  apply onto_ext
+  · have hids : o'.terms.map (·.id) = (o.terms.map truncTerm).map (·.id) := by
+      rw [L.termIds]
+      show (termFacts o.terms).map (·.id) = _
+      rw [map_id_termFacts, List.map_map]; rfl
+    apply list_eq_of_getT _ _ hids
+    · rw [hids, List.map_map]; exact h.nodup
+    · intro j; rw [L.terms j]; exact (getT_map o.terms truncTerm (fun _ => rfl) j).symm
+  · exact L.slot0
+  · intro k
+    rw [truncOnto_recs]
+    have hids : (o'.recs k).map (·.id) = ((o.recs k).map (truncRec k)).map (·.id) := by
+      rw [L.recIds k, factRecs_factsOf]
+    apply list_eq_of_getR _ _ hids
+    · rw [hids, List.map_map]
+      have : (o.recs k).map ((fun r : Rec => r.id) ∘ truncRec k) = (o.recs k).map (·.id) := by
+        apply List.map_congr_left; intro r _; exact truncRec_id k r
+      rw [this]; exact h.recNodup k
+    · intro j; rw [L.recs k j]; exact (getR_map _ (truncRec k) (truncRec_id k) j).symm
+  · exact L.version
+  · exact L.categories
+  · exact L.modifier
+
+/-! ### the Builder route establishes `Reachable` -/
+
+/-- what the three passes of `calculate_information_content` do to a term -/
+def icAll (o : Onto) (t : Term) : Term :=
+  ((t.setIc .gene (icPair o.genes.length t.genes.length)).setIc .omim
+    (icPair o.omim.length t.omim.length)).setIc .orpha (icPair o.orpha.length t.orpha.length)
+
+theorem icAll_id (o : Onto) (t : Term) : (icAll o t).id = t.id := rfl
+theorem icAll_ann (o : Onto) (t : Term) (k : Kind) : (icAll o t).ann k = t.ann k := by cases k <;> rfl
+theorem icAll_ic (o : Onto) (t : Term) (k : Kind) :
+    (icAll o t).ic k = icPair (o.recs k).length (t.ann k).length := by cases k <;> rfl
+
+theorem ids_of_core {ts ts' : List Term} (h : ts'.map core = ts.map core) :
+    ts'.map (·.id) = ts.map (·.id) := by
+  have h2 := congrArg (List.map (fun c : Nat × List Char × Bool × Option Nat => c.1)) h
+  simpa [List.map_map, Function.comp_def, core] using h2
+
+theorem applyA_ids (o : Onto) (op : AOp) : (applyA o op).terms.map (·.id) = o.terms.map (·.id) := by
+  cases op with
+  | addRec k n i => simp [applyA, Onto.addRec, terms_setRecs]
+  | annotate k rid n t =>
+    simp only [applyA]
+    cases hr : o.annotate k rid n t with
+    | ok o' =>
+      simp only
+      unfold Onto.annotate at hr
+      cases hg : o.get t with
+      | none => simp [hg] at hr
+      | some _ =>
+        simp only [hg] at hr
+        have := ids_of_core (link_same _ _ _ _ _ _ hr).1
+        rw [this, terms_addTermToRec]
+    | err _ => rfl
+    | panic => rfl
+    | diverge => rfl
+
+theorem runA_ids (ops : List AOp) : ∀ o : Onto, (runA ops o).terms.map (·.id) = o.terms.map (·.id) := by
+  induction ops with
+  | nil => intro o; rfl
+  | cons op ops ih =>
+    intro o
+    simp only [runA, List.foldl_cons]
+    have := ih (applyA o op)
+    simp only [runA] at this
+    rw [this, applyA_ids]
+
+theorem runA_core (anc : Nat → List Nat) (ex : Nat → Prop) (rank : Nat → Nat)
+    (hc : AncClosure anc ex rank) (ops : List AOp) :
+    ∀ o : Onto, AnnInv anc ex o → (∀ j, rank j < o.terms.length + 2) →
+      ∀ j, (getT (runA ops o).terms j).map coreOf = (getT o.terms j).map coreOf := by
+  induction ops with
+  | nil => intro o _ _ j; rfl
+  | cons op ops ih =>
+    intro o hinv hf j
+    obtain ⟨hinv1, hlen1, hcore1⟩ := applyA_core anc ex rank hc o hinv hf op
+    have := ih (applyA o op) hinv1 (by rw [hlen1]; exact hf) j
+    simp only [runA, List.foldl_cons] at this ⊢
+    rw [this, hcore1]
+
+theorem core_proj {t u : Term} (h : coreOf t = coreOf u) :
+    t.id = u.id ∧ t.parents = u.parents ∧ t.children = u.children ∧ t.allParents = u.allParents := by
+  simp only [coreOf, Prod.mk.injEq] at h
+  exact ⟨h.1, h.2.2.1, h.2.2.2.2.1, h.2.2.2.1⟩
+
+/-- **Non-vacuity and link to the public constructors.** Every ontology the Builder produces —
+any history of `new_term` / `add_parent` calls (failing ones included) with an acyclic result,
+`connect_all_terms`, any history of `add_gene` / `add_*_disease` / `annotate_*` calls,
+`calculate_information_content`, `build_with_defaults` — is `Reachable`. -/
+theorem reachable_of_builder (tops : List BOp) (o oc : Onto) (hrun : runB tops {} = some o)
+    (hac : Acyclic o) (hc : o.connectAll = .ok oc) (aops : List AOp) (r d : Onto)
+    (hic : (runA aops oc).calcIc = .ok r) (hd : r.buildWithDefaults = .ok d) : Reachable d := by
+  obtain ⟨hpre, hrest0⟩ := preInv_run tops {} o preInv_nil hrun
+  obtain ⟨oc', hc', hrest, hupd, hex, hsorted⟩ := C01_connect o hpre hac
+  rw [hc] at hc'; cases hc'
+  obtain ⟨hinv, ⟨rank, hcl, hf⟩, _, _⟩ := connected_annInv tops o oc hrun hac hc
+  have H := (C02_history _ _ rank hcl aops oc hinv hf).1
+  have hcore := runA_core _ _ rank hcl aops oc hinv hf
+  have hidsb := runA_ids aops oc
+  obtain ⟨hrt, hrg, hro, hrr⟩ := calcIc_ok _ r hic
+  have hrt' : r.terms = (runA aops oc).terms.map (icAll (runA aops oc)) := hrt
+  have hgr : ∀ j, getT r.terms j = (getT (runA aops oc).terms j).map (icAll (runA aops oc)) := by
+    intro j; rw [hrt']; exact getT_map _ _ (icAll_id _) j
+  -- presence and the relations, through all stages
+  have hSb : ∀ j, (getT (runA aops oc).terms j).isSome = (getT o.terms j).isSome := by
+    intro j
+    have := congrArg Option.isSome (hcore j)
+    simp only [Option.isSome_map] at this
+    rw [this, hupd.isSome]
+  have hSr : ∀ j, (getT r.terms j).isSome = (getT o.terms j).isSome := by
+    intro j; rw [hgr, Option.isSome_map, hSb]
+  have hsmallr : ∀ j, (getT r.terms j).isSome → j < maxId := by
+    intro j hj; rw [hSr] at hj; exact hpre.small j hj
+  obtain ⟨hroot1, hroot2, hdeq⟩ := (buildWithDefaults_ok_iff r d hsmallr).1 hd
+  have hdt : d.terms = r.terms := by rw [hdeq]
+  have hproj : ∀ j t, getT r.terms j = some t → ∃ u tb, getT o.terms j = some u ∧
+      getT (runA aops oc).terms j = some tb ∧ t = icAll (runA aops oc) tb ∧
+      t.parents = u.parents ∧ t.children = u.children ∧ t.allParents = allOf oc.terms j := by
+    intro j t ht
+    rw [hgr] at ht
+    cases hb : getT (runA aops oc).terms j with
+    | none => rw [hb] at ht; simp at ht
+    | some tb =>
+      rw [hb] at ht
+      simp only [Option.map_some, Option.some.injEq] at ht
+      have hcj := hcore j
+      rw [hb, hupd.2 j] at hcj
+      cases hu : getT o.terms j with
+      | none => rw [hu] at hcj; simp at hcj
+      | some u =>
+        rw [hu] at hcj
+        simp only [Option.map_some, Option.some.injEq] at hcj
+        obtain ⟨_, c2, c3, c4⟩ := core_proj hcj
+        refine ⟨u, tb, rfl, rfl, ht.symm, ?_, ?_, ?_⟩
+        · rw [← ht]; exact c2
+        · rw [← ht]; exact c3
+        · rw [← ht]; exact c4
+  have hnone : ∀ j, getT r.terms j = none → getT o.terms j = none := by
+    intro j hj
+    have := hSr j
+    rw [hj] at this
+    cases hg : getT o.terms j with
+    | none => rfl
+    | some _ => rw [hg] at this; simp at this
+  have hP : ∀ j, parentsOf d.terms j = parentsOf o.terms j := by
+    intro j; rw [hdt]
+    cases hg : getT r.terms j with
+    | none => simp [parentsOf, hg, hnone j hg]
+    | some t =>
+      obtain ⟨u, _, hu, _, _, e, _, _⟩ := hproj j t hg
+      rw [parentsOf_eq hg, parentsOf_eq hu, e]
+  have hC : ∀ j, childrenOf d.terms j = childrenOf o.terms j := by
+    intro j; rw [hdt]
+    cases hg : getT r.terms j with
+    | none => simp [childrenOf, hg, hnone j hg]
+    | some t =>
+      obtain ⟨u, _, hu, _, _, _, e, _⟩ := hproj j t hg
+      rw [childrenOf_eq hg, childrenOf_eq hu, e]
+  have hA : ∀ j, allOf d.terms j = allOf oc.terms j := by
+    intro j; rw [hdt]
+    cases hg : getT r.terms j with
+    | none =>
+      have : getT oc.terms j = none := by
+        have h1 := hupd.isSome j
+        rw [hnone j hg] at h1
+        cases hg2 : getT oc.terms j with
+        | none => rfl
+        | some _ => rw [hg2] at h1; simp at h1
+      simp [allOf, hg, this]
+    | some t =>
+      obtain ⟨_, _, _, _, _, _, _, e⟩ := hproj j t hg
+      rw [allOf_eq hg, e]
+  have hN : ∀ k j, annOf k d.terms j = annOf k (runA aops oc).terms j := by
+    intro k j; rw [hdt]
+    simp only [annOf, hgr]
+    cases getT (runA aops oc).terms j with
+    | none => rfl
+    | some tb => simp [icAll_ann]
+  have hdr : ∀ k, d.recs k = (runA aops oc).recs k := by
+    intro k; rw [hdeq]; cases k
+    · exact hrg
+    · exact hro
+    · exact hrr
+  have hhp : ∀ k x, hposOf k d x = hposOf k (runA aops oc) x := by
+    intro k x; simp only [hposOf, hdr]
+  have hisA : ∀ a b, isA d a b ↔ isA o a b := by intro a b; simp only [isA, hP]
+  have hmem : ∀ t ∈ d.terms, ∃ tb ∈ (runA aops oc).terms, t = icAll (runA aops oc) tb := by
+    intro t ht
+    rw [hdt, hrt'] at ht
+    obtain ⟨tb, htb, rfl⟩ := List.mem_map.1 ht
+    exact ⟨tb, htb, rfl⟩
+  have hrecs0 : ∀ k, ((oc.recs k).map (·.id)).Nodup := by
+    intro k
+    have : oc.recs k = [] := by rw [hrest, hrest0]; cases k <;> rfl
+    simp [this]
+  constructor
+  · rw [hdt, hrt', List.map_map]
+    have : (runA aops oc).terms.map ((fun t : Term => t.id) ∘ icAll (runA aops oc)) =
+        (runA aops oc).terms.map (·.id) := List.map_congr_left (fun t _ => icAll_id _ t)
+    rw [this, hidsb, hupd.1]; exact hpre.nodup
+  · intro t ht
+    obtain ⟨tb, htb, rfl⟩ := hmem t ht
+    rw [icAll_id]
+    apply hpre.small
+    rw [← hSb, getT_isSome_iff]
+    exact List.mem_map_of_mem htb
+  · intro j p hp
+    rw [hP] at hp
+    rw [hdt, hSr]; exact hpre.closedP j p hp
+  · intro p c; rw [hC, hP]; exact hpre.inverse p c
+  · intro j; rw [hP]; exact hpre.sortedP j
+  · intro j; rw [hC]; exact hpre.sortedC j
+  · intro j a
+    rw [hA, transGen_congr hisA]
+    by_cases hj : (getT oc.terms j).isSome
+    · exact hex j hj a
+    · have n1 : getT oc.terms j = none := by
+        cases hg : getT oc.terms j with
+        | none => rfl
+        | some _ => rw [hg] at hj; simp at hj
+      have n0 : getT o.terms j = none := by
+        have h1 := hupd.isSome j
+        rw [n1] at h1
+        cases hg : getT o.terms j with
+        | none => rfl
+        | some _ => rw [hg] at h1; simp at h1
+      constructor
+      · intro ha; simp [allOf, n1] at ha
+      · intro ht
+        obtain ⟨c, hc'⟩ := transGen_first ht
+        simp [isA, parentsOf, n0] at hc'
+  · intro j hj
+    rw [hA] at hj
+    have hpj : (getT oc.terms j).isSome := by
+      cases hg : getT oc.terms j with
+      | none => simp [allOf, hg] at hj
+      | some _ => rfl
+    have := (hex j hpj j).1 hj
+    obtain ⟨rk, hrk, _⟩ := hac
+    have := transGen_rank hrk this
+    omega
+  · intro j; rw [hA]; exact hsorted j
+  · intro k; rw [hdr]
+    exact recIds_nodup aops oc hrecs0 _ _ rank hcl hinv hf k
+  · intro k x rr
+    rw [hN, hhp, H.linked k x rr]
+    simp only [Up, ancOf, hA, eq_comm]
+  · intro k j; rw [hN]; exact H.sorted k j
+  · intro k rr dd hdd
+    rw [hhp] at hdd
+    have := H.recTerms k rr dd hdd
+    rw [hdt, hSr, ← hupd.isSome]; exact this
+  · intro k rr; rw [hhp]; exact H.hposSorted k rr
+  · intro t ht k
+    obtain ⟨tb, _, rfl⟩ := hmem t ht
+    rw [icAll_ic, icAll_ann, hdr]
+  · intro t ht k
+    obtain ⟨tb, htb, rfl⟩ := hmem t ht
+    rw [icAll_ann, hdr]
+    exact calcIc_fits _ r hic tb htb k
+  · rw [hdt]; exact ⟨hroot1, hroot2⟩
+  · rw [hdeq]
+  · rw [hdeq]
+
+
+/-! ### observational equality up to the name cut; the class is closed under the round trip -/
+
+/-- `o'` shows the observations of `o` with term and gene names cut to ≤ 255 bytes: same release
+version, same set of term ids and every term lookup equal in all other fields (flags, parents,
+children, ancestors, linked records of the three kinds, ic pairs), same set of record ids per kind and
+every record lookup equal (direct terms), same categories and modifier. -/
+structure ObsTrunc (o o' : Onto) : Prop where
+  version : o'.version = o.version
+  terms : ∀ j, getT o'.terms j = (getT o.terms j).map truncTerm
+  termSet : (o'.terms.map (·.id)).Perm (o.terms.map (·.id))
+  recs : ∀ k r, getR (o'.recs k) r = (getR (o.recs k) r).map (truncRec k)
+  recSet : ∀ k, ((o'.recs k).map (·.id)).Perm ((o.recs k).map (·.id))
+  categories : o'.categories = o.categories
+  modifier : o'.modifier = o.modifier
+
+theorem Loaded.obs {o : Onto} (h : Reachable o) {f : RawFacts} {o' : Onto} (L : Loaded o f o')
+    (hp : FactsPerm (factsOf o) f) : ObsTrunc o o' := by
+  refine ⟨L.version, L.terms, ?_, L.recs, ?_, L.categories, L.modifier⟩
+  · rw [L.termIds]
+    have := (hp.terms.map (fun t : Term => t.id)).symm
+    rwa [show (factsOf o).terms = termFacts o.terms from rfl, map_id_termFacts] at this
+  · intro k; rw [L.recIds k]; exact (recFacts_ok o h f hp k).2.2.2.2
+
+theorem getT_truncOnto (o : Onto) (j : Nat) :
+    getT (truncOnto o).terms j = (getT o.terms j).map truncTerm :=
+  getT_map o.terms truncTerm (fun _ => rfl) j
+
+theorem getR_truncOnto (o : Onto) (k : Kind) (r : Nat) :
+    getR ((truncOnto o).recs k) r = (getR (o.recs k) r).map (truncRec k) := by
+  rw [truncOnto_recs]; exact getR_map _ (truncRec k) (truncRec_id k) r
+
+theorem truncOnto_ids (o : Onto) : (truncOnto o).terms.map (·.id) = o.terms.map (·.id) := by
+  show (o.terms.map truncTerm).map (·.id) = _
+  rw [List.map_map]; rfl
+
+theorem truncOnto_recIds (o : Onto) (k : Kind) :
+    ((truncOnto o).recs k).map (·.id) = (o.recs k).map (·.id) := by
+  rw [truncOnto_recs, List.map_map]
+  apply List.map_congr_left; intro r _; exact truncRec_id k r
+
+theorem obsTrunc_truncOnto (o : Onto) : ObsTrunc o (truncOnto o) :=
+  ⟨rfl, getT_truncOnto o, by rw [truncOnto_ids], getR_truncOnto o,
+   fun k => by rw [truncOnto_recIds], rfl, rfl⟩
+
+/-- The class is closed under the round trip: what `from_bytes(as_bytes(o))` returns is `Reachable`
+again (so the theorems apply to a round trip of a round trip, and to every ontology read from a
+file that `as_bytes` wrote). -/
+theorem reachable_truncOnto (o : Onto) (h : Reachable o) : Reachable (truncOnto o) := by
+  have hg := getT_truncOnto o
+  have hS : ∀ j, (getT (truncOnto o).terms j).isSome = (getT o.terms j).isSome := by
+    intro j; rw [hg]; cases getT o.terms j <;> rfl
+  have hP : ∀ j, parentsOf (truncOnto o).terms j = parentsOf o.terms j := by
+    intro j; simp only [parentsOf, hg]; cases getT o.terms j <;> rfl
+  have hC : ∀ j, childrenOf (truncOnto o).terms j = childrenOf o.terms j := by
+    intro j; simp only [childrenOf, hg]; cases getT o.terms j <;> rfl
+  have hA : ∀ j, allOf (truncOnto o).terms j = allOf o.terms j := by
+    intro j; simp only [allOf, hg]; cases getT o.terms j <;> rfl
+  have hN : ∀ k j, annOf k (truncOnto o).terms j = annOf k o.terms j := by
+    intro k j; simp only [annOf, hg]; cases getT o.terms j <;> cases k <;> rfl
+  have hhp : ∀ k r, hposOf k (truncOnto o) r = hposOf k o r := by
+    intro k r; simp only [hposOf, getR_truncOnto]
+    cases getR (o.recs k) r <;> simp [truncRec_hpos]
+  have hlen : ∀ k, ((truncOnto o).recs k).length = (o.recs k).length := by
+    intro k; rw [truncOnto_recs, List.length_map]
+  have hisA : ∀ a b, isA (truncOnto o) a b ↔ isA o a b := by intro a b; simp only [isA, hP]
+  have hmem : ∀ t ∈ (truncOnto o).terms, ∃ t0 ∈ o.terms, t = truncTerm t0 := by
+    intro t ht
+    obtain ⟨t0, ht0, rfl⟩ := List.mem_map.1 ht
+    exact ⟨t0, ht0, rfl⟩
+  constructor
+  · rw [truncOnto_ids]; exact h.nodup
+  · intro t ht; obtain ⟨t0, ht0, rfl⟩ := hmem t ht; exact h.small t0 ht0
+  · intro j p hp; rw [hP] at hp; rw [hS]; exact h.closedP j p hp
+  · intro p c; rw [hC, hP]; exact h.inverse p c
+  · intro j; rw [hP]; exact h.sortedP j
+  · intro j; rw [hC]; exact h.sortedC j
+  · intro j a; rw [hA, transGen_congr hisA]; exact h.closure j a
+  · intro j; rw [hA]; exact h.acyclic j
+  · intro j; rw [hA]; exact h.sortedA j
+  · intro k; rw [truncOnto_recIds]; exact h.recNodup k
+  · intro k x r; rw [hN, hhp]; simp only [hA]; exact h.linked k x r
+  · intro k j; rw [hN]; exact h.sortedAnn k j
+  · intro k r d hd; rw [hhp] at hd; rw [hS]; exact h.recTerms k r d hd
+  · intro k r; rw [hhp]; exact h.hposSorted k r
+  · intro t ht k
+    obtain ⟨t0, ht0, rfl⟩ := hmem t ht
+    rw [hlen]
+    have := h.ic t0 ht0 k
+    cases k <;> exact this
+  · intro t ht k
+    obtain ⟨t0, ht0, rfl⟩ := hmem t ht
+    rw [hlen]
+    have := h.icFits t0 ht0 k
+    cases k <;> exact this
+  · rw [hS, hS]; exact h.roots
+  · show o.categories = _
+    rw [h.categories]; simp only [defCategories, hC]
+  · show o.modifier = _
+    rw [h.modifier]; simp only [defModifier, hC]
+
+/-- names that fit the length byte are not cut -/
+theorem truncOnto_eq_self (o : Onto) (hs : o.slot0 = placeholder)
+    (ht : ∀ t ∈ o.terms, (Proto.utf8 t.name).length ≤ 255)
+    (hr : ∀ r ∈ o.genes, (Proto.utf8 r.name).length ≤ 255) : truncOnto o = o := by
+  have e1 : o.terms.map truncTerm = o.terms := by
+    conv => rhs; rw [← List.map_id o.terms]
+    apply List.map_congr_left
+    intro t htm
+    have := takeFit_eq_self 255 t.name (ht t htm)
+    cases t
+    simp only [truncTerm, truncName, id] at this ⊢
+    simp only [this]
+  have e2 : geneFacts o.genes = o.genes := by
+    rw [geneFacts_eq_map]
+    conv => rhs; rw [← List.map_id o.genes]
+    apply List.map_congr_left
+    intro r hrm
+    have := takeFit_eq_self 255 r.name (hr r hrm)
+    cases r
+    simp only [truncName, id] at this ⊢
+    simp only [this]
+  cases o
+  simp only [truncOnto] at e1 e2 hs ⊢
+  simp only [e1, e2, hs]
 
 end Binary
 end Hpo
